@@ -70,8 +70,11 @@ class PureCheck:
         inputs = list(self.inputs(tier, r))
         if self.warm_every:
             # the same operation on operands that were looked at before (memo interactions): every k-th input again
+            # (chosen pseudo-randomly, not with a fixed stride: generators are periodic and a stride can miss a whole
+            # family of inputs)
             step = self.warm_every if tier == "quick" else max(2, self.warm_every - 1)
-            inputs += [dict(inp, warm=1 + (k // step) % 63) for k, inp in enumerate(inputs) if k % step == 0]
+            wr = common.rng(self.pid + ":warm")
+            inputs += [dict(inp, warm=wr.randrange(1, 64)) for inp in inputs if wr.random() * step < 1]
         events = [self._execute(inp) for inp in inputs]
         return inputs, events
 
